@@ -69,8 +69,12 @@ def execute_plan(mod, plan, known_open, cap_s=60.0, keep_events=False):
     """Run one plan. Returns a JSON-able outcome dict."""
     ctx = Ctx(mod.PROPERTY, known_open=known_open, record_events=keep_events)
     harness = None
+    # the cap is on the CPU time of the run (a machine shared with other jobs stretches wall time, not the work done);
+    # wall time is only the backstop for a run that blocks without computing
     old = signal.signal(signal.SIGALRM, _alarm)
-    signal.setitimer(signal.ITIMER_REAL, cap_s)
+    old_prof = signal.signal(signal.SIGPROF, _alarm)
+    signal.setitimer(signal.ITIMER_PROF, cap_s)
+    signal.setitimer(signal.ITIMER_REAL, cap_s * 10)
     # the cycle collector is a scheduler of its own (it runs whenever allocation counts say so, which depends on everything
     # the process did before): it is switched off for the run and runs only where the plan says so ('gc' steps)
     from . import libstate
@@ -91,8 +95,10 @@ def execute_plan(mod, plan, known_open, cap_s=60.0, keep_events=False):
     except Exception as e:  # a bug in the check itself: never a VIOLATION
         harness = 'check raised ' + ''.join(traceback.format_exception(type(e), e, e.__traceback__))[-3000:]
     finally:
+        signal.setitimer(signal.ITIMER_PROF, 0)
         signal.setitimer(signal.ITIMER_REAL, 0)
         signal.signal(signal.SIGALRM, old)
+        signal.signal(signal.SIGPROF, old_prof)
         gc.enable()
     out = {
         'digest': ctx.digest(), 'ticks': ctx.seq, 'violations': ctx.violations,
@@ -119,7 +125,7 @@ def make_plan(mod, verif_seed, tier, index):
 def _run_chunk(prop, tier, verif_seed, indices, cap_s):
     mod = load_check(prop)
     known = known_open_sigs(prop)
-    faulthandler.dump_traceback_later(max(cap_s * len(indices) * 2, 600), exit=True)
+    faulthandler.dump_traceback_later(max(cap_s * len(indices) * 10, 600), exit=True)
     res = []
     for i in indices:
         if isinstance(i, tuple):      # directed scenario
